@@ -867,8 +867,9 @@ def check_result_file_identity(ctx) -> None:
     for attr in sorted(used):
         defs = [st for st in ast.walk(init.node) if isinstance(st, ast.Assign) and norm(st.targets[0]) == attr]
         ctx.require(defs, f'{attr} is not assigned in __init__ (idiom changed)')
+        from gxstat.inline import inline_sequential
         for st in defs:
-            v = st.value
+            v = inline_sequential(st.value, st)          # through named intermediates (`p = self._file_path; self._id = hash(p)`)
             lossy = [a for a in ast.walk(v) if (isinstance(a, ast.Attribute) and a.attr in LOSSY_PATH_PARTS) or
                      (isinstance(a, ast.Call) and (dotted_name(a.func) or '').split('.')[-1] in ('basename', 'splitext'))]
             fresh = any(isinstance(a, ast.Call) and (dotted_name(a.func) or '').split('.')[-1] in ('uuid4', 'uuid1', 'token_hex', 'mkstemp', 'mkdtemp')
